@@ -45,7 +45,11 @@ class Receive:
         assert isinstance(side, str), type(phase)
         assert isinstance(phase, str), type(phase)
         assert isinstance(body, bytes), type(body)
-        assert self._key
+        if self._key is None:
+            # no key could be computed yet (the peer's PAKE was unusable, or
+            # it overtook our own code): nobody can have encrypted this for us
+            self.got_message_bad()
+            return
         data_key = derive_phase_key(self._key, side, phase)
         try:
             plaintext = decrypt_data(data_key, body)
@@ -95,6 +99,7 @@ class Receive:
         self._B.scared()
 
     S0_unknown_key.upon(got_key, enter=S1_unverified_key, outputs=[record_key])
+    S0_unknown_key.upon(got_message_bad, enter=S3_scared, outputs=[W_scared])
     S1_unverified_key.upon(
         got_message_good,
         enter=S2_verified_key,
@@ -106,3 +111,4 @@ class Receive:
         got_message_good, enter=S2_verified_key, outputs=[W_got_message])
     S3_scared.upon(got_message_good, enter=S3_scared, outputs=[])
     S3_scared.upon(got_message_bad, enter=S3_scared, outputs=[])
+    S3_scared.upon(got_key, enter=S3_scared, outputs=[])
